@@ -279,6 +279,20 @@ def run(ctx):
         for n in ast.walk(m.node):
             if isinstance(n, ast.IfExp) and "test_stat" in A.unparse(n.test):
                 hit = n
+        if hit is None and cname == "ToyCalculator":
+            # another code shape: decided from behaviour -- the constructor and distributions interpreted per statistic
+            from .c14 import toy_hypotheses
+            try:
+                got_mu = {st_: toy_hypotheses(repo, st_) for st_ in ("q0", "q", "qtilde")}
+            except Undecided as e:
+                ctx.unrecognised(r3, m, "asimov mu", f"no `x if self.test_stat == 'q0' else y` selector found, and distributions is not interpretable: {e}")
+                continue
+            want_mu = {"q0": ["mu_test", "1"], "q": ["mu_test", "0"], "qtilde": ["mu_test", "0"]}
+            if got_mu == want_mu:
+                ctx.holds(r3, f"{CALC}::{cname}.{mname}", "background toys at mu = 1 for q0 and at mu = 0 otherwise (interpreted)")
+            else:
+                ctx.violated(r3, m, "background hypothesis of the toys", "the background-only toys are not generated at mu = 1 for the discovery statistic and at mu = 0 otherwise", expected=str(want_mu), found=str(got_mu), node=m.node)
+            continue
         if hit is None:
             ctx.unrecognised(r3, m, "asimov mu", "no `x if self.test_stat == 'q0' else y` selector found")
             continue
